@@ -477,3 +477,54 @@ func init() {
 	externals["runtime.cmpstring"] = cmp
 	externals["strings.Compare"] = cmp
 }
+
+// errors.Is with Go's semantics (==, Is method, Unwrap chains); the real function goes
+// through reflectlite.TypeOf, which the executor cannot run.
+func (in *Interp) errorsIs(fr *frame, err, target value, depth int) bool {
+	if depth > 50 {
+		panic(unsupported{"errors.Is: unwrap chain too long"})
+	}
+	e, ok := err.(iface)
+	if !ok {
+		in.checkOpaque(err)
+		panic(fmt.Sprintf("errors.Is on %T", err))
+	}
+	t, _ := target.(iface)
+	if e.t == nil {
+		return t.t == nil
+	}
+	if t.t != nil && types.Comparable(t.t) && types.Identical(e.t, t.t) {
+		if in.branch(in.equals(e.t, e.v, t.v)) {
+			return true
+		}
+	}
+	if m := in.prog.LookupMethod(e.t, nil, "Is"); m != nil && m.Signature.Params().Len() == 1 && m.Signature.Results().Len() == 1 {
+		if r, ok := in.call(fr, 0, m, []value{e.v, target}).(*Term); ok && in.branch(r) {
+			return true
+		}
+	}
+	if m := in.prog.LookupMethod(e.t, nil, "Unwrap"); m != nil && m.Signature.Params().Len() == 0 && m.Signature.Results().Len() == 1 {
+		res := in.call(fr, 0, m, []value{e.v})
+		switch r := res.(type) {
+		case iface:
+			if r.t == nil {
+				return false
+			}
+			return in.errorsIs(fr, r, target, depth+1)
+		case []value:
+			for _, x := range r {
+				if in.errorsIs(fr, x, target, depth+1) {
+					return true
+				}
+			}
+			return false
+		}
+	}
+	return false
+}
+
+func init() {
+	externals["errors.Is"] = func(in *Interp, fr *frame, args []value) value {
+		return in.tb.Bool(in.errorsIs(fr, args[0], args[1], 0))
+	}
+}
